@@ -36,6 +36,7 @@ const (
 	ReqSpecVec     = 16
 	ReqStoredVisit = 17
 	ReqReuse       = 18
+	ReqMergeVec    = 19
 )
 
 var Plugin = &zap.ZapPlugin{}
